@@ -7,8 +7,9 @@ import traceback
 from . import core, facts
 
 
-def run_one(pid, tier, seed):
+def run_config(pid, tier, seed, config):
     ctx = core.Ctx(pid, tier, seed)
+    ctx.config = config
     err = None
     try:
         mod = importlib.import_module("amverif.props.%s" % pid)
@@ -20,6 +21,31 @@ def run_one(pid, tier, seed):
     except Exception:
         traceback.print_exc()
         err = "internal error in the checker: %s" % traceback.format_exc().strip().splitlines()[-1]
+    return ctx, err
+
+
+def run_one(pid, tier, seed):
+    """quick: the rules over the MIR of the dev profile. thorough: the same rules over the MIR of both build configurations
+    (dev, and release semantics: debug assertions and overflow checks off, so cfg(debug_assertions) code is absent and release-only
+    paths are present); an instance must be discharged in every configuration in which it exists."""
+    base = os.environ.get("AMVERIF_CONFIG", "dev")
+    ctx, err = run_config(pid, tier, seed, base)
+    if tier == "thorough" and err is None:
+        other = "rel" if base == "dev" else "dev"
+        ctx2, err2 = run_config(pid, tier, seed, other)
+        have = {o["key"]: o for o in ctx.obs}
+        for o in ctx2.obs:
+            if o["key"] not in have:
+                o = dict(o, detail="[%s only] %s" % (other, o["detail"]))
+                ctx.obs.append(o)
+            elif not o["ok"] and have[o["key"]]["ok"]:
+                have[o["key"]].update(ok=False, detail="[%s] %s" % (other, o["detail"]), via=None)
+        for fl in ctx2.floors:
+            ctx.floors.append(dict(fl, what="[%s] %s" % (other, fl["what"])))
+        ctx.analysed_fns |= ctx2.analysed_fns
+        ctx._facts.update(ctx2._facts)
+        ctx.notes.append("thorough tier: rules evaluated over both fact configurations %s (instances: %d and %d)" % ([base, other], len(have), len(ctx2.obs)))
+        err = err2
     return core.finish(ctx, err)
 
 
